@@ -315,5 +315,5 @@ func tieParts(r *Rng, st *Stats, cf *CoqFile, n int) {
 	cf.AddCases("parts_cases", "bool * list stmt_enc * list obs_enc", "check_parts", items)
 }
 
-func os_debug() bool { return os.Getenv("VERIF_C04_DEBUG") != "" }
+func os_debug() bool     { return os.Getenv("VERIF_C04_DEBUG") != "" }
 func debugOut() *os.File { return os.Stderr }
